@@ -26,7 +26,7 @@ Definition obj_eqb (a b : obj) : bool :=
   match a, b with
   | OSlice x, OSlice y | OArr x, OArr y | OLst x, OLst y => vlist_eqb x y
   | OGoMap x, OGoMap y | OMap x, OMap y => kvs_perm_eqb x y
-  | OSet c x, OSet d y => Nat.eqb c d && vlist_eqb x y
+  | OSet c x, OSet d y | OSetL c x, OSetL d y => Nat.eqb c d && vlist_eqb x y
   | OStk c x, OStk d y | OQue c x, OQue d y => Nat.eqb c d && vlist_eqb x y
   | OCat x, OCat y => list_eqb kv_eqb x y
   | OIter z x k, OIter w y j => val_eqb z w && vlist_eqb x y && Nat.eqb k j
@@ -34,7 +34,10 @@ Definition obj_eqb (a b : obj) : bool :=
   | _, _ => false
   end.
 
-Record pstep := { ps_op : op; ps_ret : ret; ps_diff : list (nat * obj) }.
+(* one step of a history: the op, the result the implementation returned, the objects whose observation
+   CHANGED in this step (with respect to the last time each was observed) or that were created, and the
+   slots that were NOT observed in this step (round 3: observation policies; [] = every object observed) *)
+Record pstep := { ps_op : op; ps_ret : ret; ps_diff : list (nat * obj); ps_skip : list nat }.
 Record hist := { h_zero : val; h_steps : list pstep }.
 
 Fixpoint diff_lookup (d : list (nat * obj)) (s : nat) : option obj :=
@@ -43,27 +46,31 @@ Fixpoint diff_lookup (d : list (nat * obj)) (s : nat) : option obj :=
   | (k, o) :: t => if Nat.eqb k s then Some o else diff_lookup t s
   end.
 
-(* the model's new pool p' agrees with "old pool p updated by the observed diff" *)
-Definition pool_matches (p p' : pool) (d : list (nat * obj)) : bool :=
-  forallb (fun kv => Nat.ltb (fst kv) (length p')) d &&
-  forallb (fun s =>
-    match diff_lookup d s with
-    | Some o => obj_eqb (nth s p' ODead) o
-    | None => Nat.ltb s (length p) && obj_eqb (nth s p' ODead) (nth s p ODead)
-    end) (seq 0 (length p')) &&
-  Nat.leb (length p) (length p').
+(* the pool as the implementation showed it so far: every slot holds what was seen the last time the slot
+   was observed *)
+Definition apply_diff (q : pool) (d : list (nat * obj)) : pool :=
+  let n := fold_right (fun kv acc => Nat.max (S (fst kv)) acc) (length q) d in
+  map (fun s => match diff_lookup d s with Some o => o | None => nth s q ODead end) (seq 0 n).
 
-Fixpoint check_steps (zero : val) (p : pool) (steps : list pstep) (k : nat) : option nat :=
+(* the model's new pool p' against the observed pool q': same number of objects (a created object is always
+   observed in the step that creates it), and EVERY slot observed in this step shows the model's object;
+   a slot that is not observed in this step is compared the next time it is observed *)
+Definition obs_matches (p' q' : pool) (skip : list nat) : bool :=
+  Nat.eqb (length p') (length q') &&
+  forallb (fun s => existsb (Nat.eqb s) skip || obj_eqb (nth s p' ODead) (nth s q' ODead)) (seq 0 (length p')).
+
+Fixpoint check_steps (zero : val) (p q : pool) (steps : list pstep) (k : nat) : option nat :=
   match steps with
   | [] => None
   | s :: rest =>
     let '(p', r) := step zero p (ps_op s) in
-    if ret_eqb r (ps_ret s) && pool_matches p p' (ps_diff s)
-    then check_steps zero p' rest (S k)
+    let q' := apply_diff q (ps_diff s) in
+    if ret_eqb r (ps_ret s) && obs_matches p' q' (ps_skip s)
+    then check_steps zero p' q' rest (S k)
     else Some k
   end.
 
-Definition check_hist (h : hist) : option nat := check_steps (h_zero h) [] (h_steps h) 0.
+Definition check_hist (h : hist) : option nat := check_steps (h_zero h) [] [] (h_steps h) 0.
 
 Fixpoint mismatches_from (n : nat) (cases : list hist) : list (nat * nat) :=
   match cases with
@@ -76,6 +83,10 @@ Fixpoint mismatches_from (n : nat) (cases : list hist) : list (nat * nat) :=
   end.
 Definition mismatches (cases : list hist) : list (nat * nat) := mismatches_from 0 cases.
 
+(* every object observed in every step *)
+Definition fully_observed (h : hist) : bool :=
+  forallb (fun s => match ps_skip s with [] => true | _ => false end) (h_steps h).
+
 (* what the model computes for a history (used for replay files and debugging) *)
 Fixpoint model_trace (zero : val) (p : pool) (ops : list op) : list (ret * pool) :=
   match ops with
@@ -83,18 +94,32 @@ Fixpoint model_trace (zero : val) (p : pool) (ops : list op) : list (ret * pool)
   | o :: rest => let '(p', r) := step zero p o in (r, p') :: model_trace zero p' rest
   end.
 
-(* report for one step: (model result, observed result), and for every slot on which model
-   and observation disagree: (slot, model object, observed object or the old object) *)
-Definition step_report (zero : val) (p : pool) (s : pstep) : (ret * ret) * list (nat * obj * obj) :=
+(* report for one step: (model result, observed result), and for every slot OBSERVED in this step on which
+   model and observation disagree: (slot, model object, observed object); [q] is the observed pool before
+   the step *)
+Definition step_report_obs (zero : val) (p q : pool) (s : pstep) : (ret * ret) * list (nat * obj * obj) :=
   let '(p', r) := step zero p (ps_op s) in
-  let n := Nat.max (length p') (S (fold_right Nat.max 0%nat (map fst (ps_diff s)))) in
+  let q' := apply_diff q (ps_diff s) in
+  let n := Nat.max (length p') (length q') in
   ((r, ps_ret s),
    flat_map (fun k =>
-     let expected := match diff_lookup (ps_diff s) k with Some o => o | None => nth k p ODead end in
-     if obj_eqb (nth k p' ODead) expected then [] else [(k, nth k p' ODead, expected)]) (seq 0%nat n)).
+     if existsb (Nat.eqb k) (ps_skip s) || obj_eqb (nth k p' ODead) (nth k q' ODead) then []
+     else [(k, nth k p' ODead, nth k q' ODead)]) (seq 0%nat n)).
+
+Fixpoint obs_after (q : pool) (steps : list pstep) : pool :=
+  match steps with
+  | [] => q
+  | s :: rest => obs_after (apply_diff q (ps_diff s)) rest
+  end.
 
 Fixpoint pool_after (zero : val) (p : pool) (ops : list op) : pool :=
   match ops with
   | [] => p
   | o :: rest => pool_after zero (fst (step zero p o)) rest
   end.
+
+(* the report for step k of a history *)
+Definition hist_report (h : hist) (k : nat) :=
+  let before := pool_after (h_zero h) [] (firstn k (map ps_op (h_steps h))) in
+  let seen := obs_after [] (firstn k (h_steps h)) in
+  step_report_obs (h_zero h) before seen (nth k (h_steps h) {| ps_op := IsEmpty 0; ps_ret := RBad; ps_diff := []; ps_skip := [] |}).
